@@ -365,7 +365,8 @@ theorem quote_in_a_name_breaks_layout_equivalence :
   decide +kernel
 
 /-! ### 8. END TO END on the fragment of C10 (`Frag`: operators, calls, index, field, list
-    literals, lambdas, conditionals): format, then read the TEXT back.
+    literals, lambdas, conditionals, string literals without both kinds of quote, record
+    literals): format, then read the TEXT back.
 
     `canonF t` is `format_single_line t` as a concrete syntax tree: the printer's tree `canon t`
     except that, where `format_single_line` itself descends (lambda bodies, call arguments, list
@@ -420,8 +421,10 @@ theorem format_layout_tree (w indent : Nat) :
       condCST indent (condHeadFits w indent c) (fmtCST w indent c) (fmtCST w (indent + 2) c)
         (fmtCST w (indent + 2) t)
         (match fmtChainCST w indent e with | some _ => [.sp] | none => .lf :: List.replicate (indent + 2) .sp)
-        (match fmtChainCST w indent e with | some x => x | none => fmtCST w (indent + 2) e)) := by
-  refine ⟨?_, ?_, ?_, ?_, ?_, ?_, ?_, ?_, ?_, ?_, ?_⟩
+        (match fmtChainCST w indent e with | some x => x | none => fmtCST w (indent + 2) e)) ∧
+    (∀ es, fits w indent (.record es) = false → fmtCST w indent (.record es) =
+      mkRecordML indent (fmtEntsCST w (indent + 2) es)) := by
+  refine ⟨?_, ?_, ?_, ?_, ?_, ?_, ?_, ?_, ?_, ?_, ?_, ?_⟩
   · intro t h hl hf
     cases t <;> first
       | (simp [Frag, frag, fragB] at h; done)
@@ -438,6 +441,7 @@ theorem format_layout_tree (w indent : Nat) :
   · intro e n hf; rw [fmtCST, hf]; rfl
   · intro items hf; rw [fmtCST, hf]; rfl
   · intro c t e hf; rw [fmtCST, hf]; rfl
+  · intro es hf; rw [fmtCST, hf]; rfl
 
 /-- the multi-line conditional: `if c then⏎ (indent+2) t⏎ indent else …` when `if c then` fits,
     else `if c'⏎ indent then⏎ (indent+2) t⏎ indent else …` with the condition re-formatted one
@@ -469,6 +473,34 @@ theorem format_call_layout (indent : Nat) (f : CST) (p : Bool × CST) (ps : List
     (∀ q rest, mkArgsML indent p (q :: rest) =
       .cons p.1 p.2 [] (.lf :: List.replicate (indent + 2) .sp) (mkArgsML indent q rest)) :=
   ⟨rfl, rfl, rfl, rfl, rfl, fun _ _ => rfl⟩
+
+/-- the multi-line record: `{` line break, every entry at `indent + 2` followed by a comma and a
+    line break, `}` at `indent` (the layout of a multi-line list).  An entry is `key: value` with
+    the key as `format_record_key` writes it — bare when it is an identifier, else a string
+    literal — and the value formatted at the entry's indent; `[key]: value` with both formatted
+    there; a shorthand; `...e`. -/
+theorem format_record_layout (w indent inner : Nat) (e : Ent) (es : List Ent) :
+    mkRecordML indent (e :: es) =
+      .record (.lf :: List.replicate (indent + 2) .sp) (mkEntsML indent e es)
+        (.comma [] (.lf :: List.replicate indent .sp)) ∧
+    mkRecordML indent [] = .rec0 [] ∧
+    mkEntsML indent e [] = .last e ∧
+    (∀ q rest, mkEntsML indent e (q :: rest) =
+      .cons e [] (.lf :: List.replicate (indent + 2) .sp) (mkEntsML indent q rest)) ∧
+    (∀ k v, fmtEntCST w inner (.mk [] (.static k) v none) =
+      if isValidIdentifier k || !bothQuotes k then keyEnt k (fmtCST w inner v)
+      else .raw (.mk [] (.static k) v none)) ∧
+    (∀ k v, keyEnt k v =
+      if isValidIdentifier k then .pairId k [] [.sp] v
+      else .pairStr (!k.toList.contains '"') k [] [.sp] v) ∧
+    (∀ ke v, fmtEntCST w inner (.mk [] (.dyn ke) v none) =
+      .pairDyn [] (fmtCST w inner ke) [] [] [.sp] (fmtCST w inner v)) ∧
+    (∀ n, fmtEntCST w inner (.mk [] (.short n) .null none) = .short n) ∧
+    (∀ x, fmtEntCST w inner (.mk [] (.spread (.spread x)) .null none) =
+      .spread (fmtCST w inner (.spread x))) :=
+  ⟨rfl, rfl, rfl, fun _ _ => rfl, fun _ _ => by simp [fmtEntCST, entPlain],
+    fun _ _ => rfl, fun _ _ => by simp [fmtEntCST, entPlain],
+    fun _ => by simp [fmtEntCST, entPlain, isNullE], fun _ => by simp [fmtEntCST, entPlain, isNullE]⟩
 
 /-- the same on strings: where the single-line form fits the output is `expr_to_source`;
     where it does not, the operator of a binary node starts a new line two columns deeper and
@@ -802,6 +834,51 @@ example : parseText (formatExpr x6 (some 4)) = some x6 ∧
     format_text_roundtrip x6 (by decide +kernel) 80⟩
 example : reads (formatExpr x6 (some 4)) = some "g(a, (y, z?) => (y via z)) via (x) => x + b" := by
   decide +kernel
+
+/-- string literals: the printer's choice of quote; a literal that contains a line break never
+    "fits on one line", so its parents are laid out multi-line at EVERY width — still a
+    re-layout, and the line break inside the literal is read back as part of the string -/
+private abbrev x7 : Expr :=
+  .call ig [.bin .add (.str "a b") (.str "it's"), .str "say \"hi\"\nbye"]
+private abbrev x8 : Expr :=
+  .call ig [.bin .add (.str "a b") (.str "it's"), .str "say \"hi\""]
+example : Frag x7 ∧ Frag x8 := by decide +kernel
+example : formatExpr x7 (some 80) = "g(\n  \"a b\" + \"it's\",\n  'say \"hi\"\nbye',\n)" ∧
+    formatExpr x8 (some 80) = "g(\"a b\" + \"it's\", 'say \"hi\"')" ∧
+    formatExpr x8 (some 12) = "g(\n  \"a b\"\n    + \"it's\",\n  'say \"hi\"',\n)" := by
+  decide +kernel
+example : parseText (formatExpr x7 (some 80)) = some x7 ∧ parseText (formatExpr x7 (some 1)) = some x7 ∧
+    parseText (formatExpr x8 (some 12)) = some x8 :=
+  ⟨format_text_roundtrip x7 (by decide +kernel) 80, format_text_roundtrip x7 (by decide +kernel) 1,
+    format_text_roundtrip x8 (by decide +kernel) 12⟩
+example : reads (formatExpr x7 (some 80)) = some "g(\"a b\" + \"it's\", 'say \"hi\"\nbye')" ∧
+    reads (formatExpr x8 (some 12)) = some "g(\"a b\" + \"it's\", 'say \"hi\"')" := by decide +kernel
+/-- record literals at three widths: keys bare / quoted / computed, a shorthand, a spread; a
+    one-parameter lambda as a value loses its parentheses (`format_single_line`) -/
+private abbrev ent (k : Key) (v : Expr) : Entry := .mk [] k v none
+private abbrev x9 : Expr :=
+  .record [ent (.static "a") (.bin .add ia ib), ent (.static "k 2") (.lambda [.req "y"] (.ident "y")),
+    ent (.dyn (.call ig [ia])) (.record []), ent (.short "b") .null,
+    ent (.spread (.spread (.call ig [ib]))) .null]
+example : Frag x9 := by decide +kernel
+example : formatExpr x9 (some 80) = "{a: a + b, \"k 2\": y => y, [g(a)]: {}, b, ...g(b)}" ∧
+    formatExpr x9 (some 20) =
+      "{\n  a: a + b,\n  \"k 2\": y => y,\n  [g(a)]: {},\n  b,\n  ...g(b),\n}" ∧
+    formatExpr x9 (some 1) =
+      "{\n  a: a\n    + b,\n  \"k 2\": y =>\n    y,\n  [g(\n    a,\n  )]: {},\n  b,\n  ...g(\n    b,\n  ),\n}" := by
+  decide +kernel
+example : parseText (formatExpr x9 (some 1)) = some x9 ∧
+    parseText (formatExpr x9 (some 20)) = some x9 ∧ parseText (formatExpr x9 (some 80)) = some x9 :=
+  ⟨format_text_roundtrip x9 (by decide +kernel) 1, format_text_roundtrip x9 (by decide +kernel) 20,
+    format_text_roundtrip x9 (by decide +kernel) 80⟩
+example : reads (formatExpr x9 (some 1)) = some "{a: a + b, \"k 2\": (y) => y, [g(a)]: {}, b, ...g(b)}" := by
+  decide +kernel
+
+/-- a string with both kinds of quote is outside the fragment: the formatter writes the
+    concatenation of section 2, which reads back as that concatenation (C10
+    `both_quotes_string_reads_back_as_concatenation`) -/
+example : ¬ Frag (.str "a\"b'c") ∧ formatExpr (.str "a\"b'c") (some 80) = "(\"a\" + '\"' + \"b'c\")" ∧
+    reads (formatExpr (.str "a\"b'c") (some 80)) = some "\"a\" + '\"' + \"b'c\"" := by decide +kernel
 end text_examples
 
 end Blots.C07
